@@ -16,9 +16,9 @@ Import ListNotations.
 
 (* Python exception classes of this path. EUnmodelled marks the two places where
    the model deliberately stops (see notes/C02.md): a sheet selector of magnitude
-   >= 2 (int() of a float) and a torus whose axis is not a coordinate
+   >= 9 (int() of a float) and a torus whose axis is not a coordinate
    axis (only reachable through a TR card: property C04). *)
-Inductive err := EIndex | EValue | EType | EZeroDiv | EKey | ENotImpl | EConv | EUnmodelled.
+Inductive err := EIndex | EValue | EType | EZeroDiv | EKey | ENotImpl | EConv | EAttr | EUnmodelled.
 Inductive res (A : Type) := Ok (a : A) | Err (e : err).
 Arguments Ok {A}. Arguments Err {A}.
 
@@ -374,13 +374,20 @@ Definition cone_aux_plane (p u : vec) (side : Z) : res (t4surf * Z) :=
     Ok ((PLANEY, [(- pos) / u_y]), if zero <? u_y then side else Z.opp side)
   else Ok ((PLANE, [u_x; u_y; u_z; pos]), side).
 
-(* -int(nappe): int() truncates towards zero; modelled for |nappe| < 2
-   (a larger selector gives |side| >= 2, outside the model) *)
+(* -int(nappe): int() truncates towards zero; modelled for |nappe| < 9 by
+   comparing with the integers 1..8 (a larger selector is outside the model).
+   Any selector with |int(nappe)| >= 2 gives a side of that magnitude. *)
+Fixpoint minus_int_search (n : T) (js : list Z) : res Z :=
+  match js with
+  | [] => if (- one <? n) && (n <? one) then Ok 0%Z else Err EUnmodelled
+  | j :: r =>
+      if (sZ S j <=? n) && (n <? sZ S (j + 1)) then Ok (Z.opp j)
+      else if (sZ S (Z.opp (j + 1)) <? n) && (n <=? sZ S (Z.opp j)) then Ok j
+      else minus_int_search n r
+  end.
+
 Definition minus_int (n : T) : res Z :=
-  if (one <=? n) && (n <? sZ S 2) then Ok (-1)%Z
-  else if (sZ S (-2) <? n) && (n <=? - one) then Ok 1%Z
-  else if (- one <? n) && (n <? one) then Ok 0%Z
-  else Err EUnmodelled.
+  minus_int_search n [1; 2; 3; 4; 5; 6; 7; 8]%Z.
 
 Definition convert_cone (c : cad) : res coll :=
   do f <- frame_of c;
